@@ -279,6 +279,7 @@ func (s *sut) replicaMode(name, mode string) *replica {
 
 func (s *sut) close() {
 	scanLogs(theCtx, "sut")
+	scanOutputs(theCtx, s)
 	s.idp.close()
 	s.upstream.Close()
 	if s.mr != nil {
@@ -455,6 +456,11 @@ func (b *browser) do(rp *replica, method, target string, hdr http.Header) *respo
 	out := &response{Status: res.StatusCode, Header: res.Header, Body: string(body), Cookies: res.Cookies(), Location: res.Header.Get("Location")}
 	for _, ck := range out.Cookies {
 		addSecret("cookie_value", ck.Value)
+		if ck.Value != "" {
+			monitor.mu.Lock()
+			monitor.outputs = append(monitor.outputs, [2]string{"cookie:" + ck.Name, ck.Value})
+			monitor.mu.Unlock()
+		}
 	}
 	b.store(&u, out.Cookies)
 	return out
@@ -599,9 +605,12 @@ func (lc *logCapture) uninstall() {} // the capture stays for the life of the pr
 
 var monitor = struct {
 	mu      sync.Mutex
-	secrets map[string]string // value -> kind
-	scanned int
-	found   int
+	secrets    map[string]string // value -> kind
+	scanned    int
+	found      int
+	outputs    [][2]string // (sink, value) of everything wonderwall emitted to the browser
+	outScanned int
+	outFound   int
 }{secrets: map[string]string{}}
 
 func addSecret(kind, v string) {
@@ -609,7 +618,9 @@ func addSecret(kind, v string) {
 		return
 	}
 	monitor.mu.Lock()
-	monitor.secrets[v] = kind
+	if old, ok := monitor.secrets[v]; !ok || old == "cookie_value" {
+		monitor.secrets[v] = kind // a cookie value that is ALSO a token keeps the more specific kind
+	}
 	monitor.mu.Unlock()
 }
 
@@ -661,7 +672,56 @@ func scanLogs(c *ctx, where string) {
 	}
 }
 
+// scanOutputs looks for token / verifier / key material in clear inside everything wonderwall wrote: Set-Cookie values and store values (C09).
+func scanOutputs(c *ctx, s *sut) {
+	if c == nil {
+		return
+	}
+	monitor.mu.Lock()
+	secrets := make(map[string]string, len(monitor.secrets))
+	for k, v := range monitor.secrets {
+		if !strings.HasPrefix(v, "cookie_value") {
+			secrets[k] = v
+		}
+	}
+	outs := monitor.outputs
+	monitor.outputs = nil
+	monitor.mu.Unlock()
+	if s != nil && s.mr != nil {
+		for _, k := range s.mr.Keys() {
+			if v, err := s.mr.Get(k); err == nil {
+				outs = append(outs, [2]string{"store:" + keyClass(k), v})
+			}
+		}
+	}
+	found := 0
+	for _, o := range outs {
+		dec, _ := base64.RawURLEncoding.DecodeString(o[1])
+		for v, kind := range secrets {
+			if strings.Contains(o[1], v) || (len(dec) > 0 && strings.Contains(string(dec), v)) {
+				found++
+				c.emit("outscan", "sink", hx(o[0]), "kind", kind, "found", true)
+			}
+		}
+	}
+	monitor.mu.Lock()
+	monitor.outScanned += len(outs)
+	monitor.outFound += found
+	monitor.mu.Unlock()
+}
+
+func keyClass(k string) string {
+	if strings.HasSuffix(k, ".lock") {
+		return "lock"
+	}
+	return "session"
+}
+
 func finishLogScan(c *ctx) {
+	scanOutputs(c, nil)
+	monitor.mu.Lock()
+	c.emit("outscan", "sink", hx("summary"), "kind", "summary", "found", false, "outputs", monitor.outScanned, "findings", monitor.outFound)
+	monitor.mu.Unlock()
 	scanLogs(c, "end")
 	monitor.mu.Lock()
 	defer monitor.mu.Unlock()
